@@ -232,6 +232,20 @@ def pool_part(scratch, tier, seed, v, stats, plans, nlive, sd):
         s["exit_code"] = s["signal_exit"]
         s["plan"] = {"iteration": k, "line": j, "where": line, "pool": True}
         specs.append(s)
+    # a signal during a SECOND run() on the same FlowSampler (first run stopped by max_iteration, cap lifted):
+    # the handler must still be installed
+    for n, (k, j, line) in enumerate(chosen[:2]):
+        cap = nlive + 4
+        s = base(sd + 7, nlive)
+        s["kwargs"]["max_iteration"] = cap
+        s["run_again"] = 1
+        s["extra"] = {"lift_cap_before_again": True}
+        s["extra_by_proc"] = {"0": {"line_signals": {"at_iteration": cap + 3, "line": j if n == 0 else 3,
+                                                      "signum": [15, 14][n]}}}
+        s["signal_exit"] = 11
+        s["exit_code"] = 11
+        s["plan"] = {"iteration": cap + 3, "line": j if n == 0 else 3, "where": line, "second_run": True}
+        specs.append(s)
     # complete runs with and without close_pool
     for cp in (True, False):
         s = base(sd + 1 + int(cp), nlive)
@@ -259,7 +273,7 @@ def pool_part(scratch, tier, seed, v, stats, plans, nlive, sd):
         if region in ("consume_sample", "finalise"):
             continue       # (with a pool the line index landed inside a critical section: covered by the main part)
         stats["pool_injected"] = stats.get("pool_injected", 0) + 1
-        where = (f"[n_pool=2] signal {sig['signum']} before {sig['file']}:{sig['lineno']} ({sig['func']}) "
+        where = (("[second run()] " if plan.get("second_run") else "[n_pool=2] ") + f"signal {sig['signum']} before {sig['file']}:{sig['lineno']} ({sig['func']}) "
                  f"at iteration {plan['iteration']}")
         h["where"], h["sig"] = where, sig
         replay = {"spec": h["spec"], "signal": {k: sig[k] for k in ("idx", "file", "lineno", "func", "region", "signum")},
@@ -282,9 +296,11 @@ def pool_part(scratch, tier, seed, v, stats, plans, nlive, sd):
                 h = sig_hist[r["h"]]
                 v.violation(r["c"].split(":")[0], f"{h['where']}: after the resume clause {r['p']}/{r['c']} fails at "
                             f"event {r['l']}", {"spec": h["spec"], "signal": h["sig"], "clause": r["c"], "event": r["ev"]})
-    precs, pstats, _ = validate_pool(good, scratch)
+    pooled = [h for h in good if h["spec"].get("extra", {}).get("trace_pool")]
+    precs, pstats, _ = validate_pool(pooled, scratch)
     for r in precs:
-        v.mismatch(f"pool history {r['h']} ({good[r['h']]['spec']['plan']}) event {r['l']}: {r['c']}")
+        v.mismatch(f"pool history {r['h']} ({pooled[r['h']]['spec']['plan']}) event {r['l']}: {r['c']}")
+    pstats["second_run_signal_histories"] = sum(1 for h in good if h["spec"]["plan"].get("second_run"))
     pstats["model_states"] = pstates
     pstats["histories"] = len(good)
     return pstats
